@@ -300,7 +300,9 @@ func (ms *Modules) FindModuleByNamespace(ns string) (*Module, error) {
 		return m, nil
 	}
 	var found *Module
-	for _, m := range ms.Modules {
+	// In the order of the keys, so that the two modules named when the
+	// namespace is ambiguous do not depend on map order.
+	for _, m := range sortedModules(ms.Modules) {
 		if m.Namespace.Name == ns {
 			switch {
 			case m == found:
